@@ -11,7 +11,7 @@ import math
 ACT = {"NONE": 0, "RELU": 1, "RELU_N1_TO_1": 2, "RELU6": 3}
 EXACT_OPS = ["conv", "conv", "conv", "dw", "fc", "maxpool", "avgpool_valid", "add", "add", "sub", "mul", "relu", "relu6", "reshape", "concat", "pad", "quantize",
              "sslice", "split", "maximum", "minimum", "add_const", "mul_const", "padconv"]
-APPROX_TAIL_OPS = ["avgpool_same", "logistic", "tanh", "hswish", "lrelu", "softmax", "mean", "resize_nearest", "resize_bilinear", "abs", "tconv", "exp", "log", "sqrt", "rsqrt", "gelu"]
+APPROX_TAIL_OPS = ["avgpool_same", "logistic", "tanh", "hswish", "lrelu", "softmax", "mean", "resize_nearest", "resize_bilinear", "abs", "tconv", "exp", "log", "sqrt", "rsqrt", "gelu", "prelu"]
 LUT_UNARY = {"exp": "EXP", "log": "LOG", "sqrt": "SQRT", "rsqrt": "RSQRT", "gelu": "GELU"}
 CPU_OPS = ["custom", "dequant_quant", "float_chain", "gather", "tile", "argmax_tail", "unsupported_conv"]
 
@@ -445,6 +445,31 @@ class NB:
         self.op(code, [x], [o], table, fields, version=2)
         return o
 
+    def prelu(self, x):
+        """PRELU with a constant per-channel alpha: all alphas equal (-> LeakyRelu / Relu), all below 1 (-> max(alpha*x, x)), or some >= 1 (-> min/mul/relu/add)"""
+        d, st = self.draw, self.st
+        X = self.info(x)
+        dt = X["dtype"]
+        C = X["shape"][-1]
+        mode = d(st.sampled_from(["same", "small", "small", "large", "zero"]))
+        ascale = d(st.sampled_from([0.01, 0.005, 0.02, 0.1]))
+        azp = 128 if dt == "uint8" else d(st.sampled_from([0, 0, -3, 5]))
+        lim = 127 if dt != "uint8" else 120
+        small = max(1, min(lim - 6, int(0.99 / ascale)))
+        if mode == "same":
+            vals = [d(st.integers(-small, small))] * C
+        elif mode == "zero":
+            vals = [0] * C
+        elif mode == "small":
+            vals = [d(st.integers(-small, small)) for _ in range(C)]
+        else:
+            vals = [d(st.integers(-lim + 6, lim - 6)) for _ in range(C)]
+        ashape = [1, 1, C] if len(X["shape"]) == 4 else [C]
+        a = self.t("alpha", ashape, dt, ascale, azp, dict(values=[v + azp for v in vals]))
+        o = self.out("prelu", X["shape"], dt, self.quant(dt, (X["scale"], X["zp"])))
+        self.op("PRELU", [x, a], [o], None, None, version=1)
+        return o
+
     def lut_unary(self, x, code):
         """EXP / LOG / SQRT / RSQRT / GELU: table-driven on the NPU for int8 (and int16 except RSQRT); any input quantisation - the functions' domains are the reference's business"""
         X = self.info(x)
@@ -586,7 +611,7 @@ def network(profile="exact", max_ops=6, dtypes=("int8", "int8", "int8", "uint8",
             menu = list(EXACT_OPS)
             n_ops = draw(st.integers(1, max_ops))
             approx_tail = draw(st.sampled_from(["avgpool_same", "logistic", "tanh", "hswish", "lrelu", "mean", "resize_nearest", "avgpool_same", "tanh", "tconv", "tconv", "resize_bilinear",
-                                                    "exp", "log", "sqrt", "rsqrt", "gelu"]))
+                                                    "exp", "log", "sqrt", "rsqrt", "gelu", "prelu", "prelu", "abs"]))
         if profile == "exact16":  # exact-class operators whose 16-bit reference is pinned down (no ADD/SUB: their int16 reference depends on the pot_scale option)
             menu = ["conv", "conv", "conv", "dw", "fc", "maxpool", "avgpool_valid", "mul", "relu", "relu6", "reshape", "concat", "pad", "quantize", "sslice", "split",
                     "maximum", "minimum", "mul_const", "padconv", "add", "sub", "add_const"]
@@ -668,7 +693,7 @@ def network(profile="exact", max_ops=6, dtypes=("int8", "int8", "int8", "uint8",
             elif kind in ("relu", "relu6"):
                 cur = nb.unary(cur, kind.upper(), same_q=True)
             elif kind == "abs":
-                cur = nb.unary(cur, "ABS", same_q=True, table="AbsOptions", fields={})
+                cur = nb.unary(cur, "ABS", same_q=draw(st.booleans()), table="AbsOptions", fields={})
             elif kind == "reshape":
                 cur = nb.reshape(cur)
             elif kind == "concat":
@@ -703,6 +728,8 @@ def network(profile="exact", max_ops=6, dtypes=("int8", "int8", "int8", "uint8",
                 cur = nb.softmax(cur)
             elif kind in ("logistic", "tanh", "hswish", "lrelu"):
                 cur = nb.act_lut(cur, {"logistic": "LOGISTIC", "tanh": "TANH", "hswish": "HARD_SWISH", "lrelu": "LEAKY_RELU"}[kind])
+            elif kind == "prelu":
+                cur = nb.prelu(cur) if X["dtype"] != "int16" else nb.unary(cur, "RELU", same_q=True)
             elif kind in LUT_UNARY:
                 cur = nb.lut_unary(cur, LUT_UNARY[kind])
             elif kind == "custom":
